@@ -149,7 +149,10 @@ def gen_schema(rng, tier, int_keys=None):
                     keys.append(k)
             children = [{"p": "prim", "v": k} for k in keys]
             if int_keys and rng.random() < 0.4:
-                children.append({"p": "prim", "v": rng.choice([0, 1, 7])})
+                ik = rng.choice([0, 1, 7])
+                children.append({"p": "prim", "v": ik})
+                if rng.random() < 0.5 and str(ik) not in keys:
+                    children.append({"p": "prim", "v": str(ik)})  # the look-alike string key next to the integer key
             if rng.random() < 0.2:
                 children.append({"p": "map"})
         else:
@@ -383,6 +386,13 @@ def run(case, ctx):
     if set(got_ids) != exp_ids and not relaxed:
         ctx.violate("C20/node-set", f"flat tree nodes differ from the expected set: extra {sorted(set(got_ids) - exp_ids)[:3]}, "
                     f"missing {sorted(exp_ids - set(got_ids))[:3]}")
+    # each rule exactly once: its own condition object is carried by exactly one node (whatever the nodes are keyed by)
+    for r, o in zip(rules_t, objs):
+        if pid(r["path"]["parts"])[:len(fp_id)] != fp_id:
+            continue
+        cnt = sum(1 for n in flat if n.get("condition") is o.condition)
+        if cnt != 1:
+            ctx.violate("C20/rule-missing" if cnt == 0 else "C20/rule-dup", f"the condition object of the rule at {r['path']['parts']} is carried by {cnt} nodes of the flat tree")
     # each rule exactly once with its condition, doc and simplified path
     for i, (r, o) in inside.items():
         nodes = [n for n in flat if tuple(n["path_str"]) == rel(i)]
